@@ -660,6 +660,26 @@ def generate(u, repo=None):
                 # R0-vis: all fields pub (visibility only; lets contracts of pub fns mention them)
                 text, n = re.subn(r"^(\s+)([a-z_][a-z0-9_]*\s*:)", r"\1pub \2", text, flags=re.M)
                 counts["R0-vis"] = counts.get("R0-vis", 0) + n
+                # tuple structs: `struct X(T, U)` -> `struct X(pub T, pub U)`
+                mt = re.search(r"\bstruct\s+\w+\s*(?:<[^>(]*>)?\s*\(", text)
+                if mt:
+                    depth, j, start, parts = 1, mt.end(), mt.end(), []
+                    while j < len(text) and depth:
+                        ch = text[j]
+                        if ch in "([<":
+                            depth += 1
+                        elif ch in ")]>":
+                            depth -= 1
+                            if depth == 0:
+                                parts.append(text[start:j])
+                                break
+                        elif ch == "," and depth == 1:
+                            parts.append(text[start:j])
+                            start = j + 1
+                        j += 1
+                    newparts = [(" pub " + q.strip()) if q.strip() and not q.strip().startswith("pub") else q for q in parts]
+                    text = text[:mt.end()] + ",".join(newparts) + text[j:]
+                    counts["R0-vis"] = counts.get("R0-vis", 0) + len([q for q in parts if q.strip() and not q.strip().startswith("pub")])
             if it["opts"].get("execconst"):
                 # R14: `pub const X: T = E;` -> `pub exec const X: T ensures <clause> { E }` (Verus cannot call an exec fn in
                 # a spec-visible const initialiser; the value is the same expression, the ensures clause is proved from it)
@@ -893,7 +913,7 @@ def run_unit(u, scratch, repo=None):
 
 def scan_assumed(text):
     out = []
-    for kw in ("external_body", "assume_specification", "assume(", "admit(", "#[verifier::external", "uninterp"):
+    for kw in ("external_body", "assume_specification", "assume(", "admit(", "#[verifier::external", "uninterp", "axiom fn"):
         n = text.count(kw)
         if n:
             out.append("%s x%d" % (kw, n))
